@@ -35,10 +35,11 @@ func init() {
 		Level: "model_checking",
 		Rule: "2-3 sessions x 2-4 requests each, every session a goroutine with its own engine, state, cache and store handle, sharing only the application data (code slices handed out as an in-memory resource holds them, with spare capacity, and as exact-capacity control); a cooperative scheduler offers a scheduling choice before every request, at every VM instruction (verif hook), at every resource callback and at every store Put/Get; ALL schedules with at most P pre-emptions are enumerated (iterative bounding 0..P, stateless DFS with replay, no partial-order reduction); " +
 			"oracle: every session's transcript equals its solo transcript under every schedule, the application data (every code slice up to its CAPACITY, templates, labels) and the library's package-level variables are unchanged after every execution, the same schedule replayed gives the same observations; separately the same session bodies run free under the race detector (sampling complement, reported as such); states = distinct schedules (thread-choice traces); non-trivial = schedules with at least one pre-emption inside a request",
-		Assumptions: []string{"memory-model effects and unsynchronised accesses confined to one VM instruction are only seen by the separate free-running -race pass, which samples", "no partial-order reduction: independence of sessions is what is being tested"},
-		Run:         c19Run,
-		Replay:      c19Replay,
-		MinItems:    10,
+		Assumptions:         []string{"memory-model effects and unsynchronised accesses confined to one VM instruction are only seen by the separate free-running -race pass, which samples", "no partial-order reduction: independence of sessions is what is being tested"},
+		Run:                 c19Run,
+		Replay:              c19Replay,
+		UnstableIsViolation: true,
+		MinItems:            10,
 	})
 }
 
@@ -48,6 +49,7 @@ type c19Scenario struct {
 	Sessions [][]string
 	Mode     string // long-lived | persisted-mem | persisted-fs
 	Size     uint32
+	Lang     string // Config.Language
 }
 
 func hubApp(slack int) *app.App {
@@ -92,7 +94,21 @@ func pagedShared(slack int) *app.App {
 	return a
 }
 
+// langShared: sessions with a configured language; one of them switches to another language.
+func langShared(slack int) *app.App {
+	a := c18App(c18Spec{Early: false, CfgLang: "nor", Trans: 7})
+	sw := func(e *app.Env, sym string, in []byte, l string) (resource.Result, error) {
+		return resource.Result{Content: "swa", FlagSet: []uint32{7}}, nil
+	}
+	a.Func("sw0", sw).Func("sw1f", sw).Func("sw2f", sw).Func("swf", sw)
+	a.SharedCode = true
+	a.CodeSlack = slack
+	return a
+}
+
 var c19Scenarios = []c19Scenario{
+	{Name: "language-switch-next-to-configured-language-persisted-fs", Build: langShared, Sessions: [][]string{{"", "2", "1"}, {"", "1", "0"}}, Mode: "persisted-fs", Lang: "nor"},
+	{Name: "language-switch-next-to-configured-language-persisted-mem", Build: langShared, Sessions: [][]string{{"", "2"}, {"", "1"}, {"", "1"}}, Mode: "persisted-mem", Lang: "nor"},
 	{Name: "hub-via-catch-2x3-long-lived", Build: hubApp, Sessions: [][]string{{"", "1", "0"}, {"", "2", "0"}}, Mode: "long-lived"},
 	{Name: "hub-via-catch-2x3-persisted-fs", Build: hubApp, Sessions: [][]string{{"", "1", "0"}, {"", "2", "0"}}, Mode: "persisted-fs"},
 	{Name: "moves-2x3-long-lived", Build: moveApp, Sessions: [][]string{{"", "1", "0"}, {"", "2", "9"}}, Mode: "long-lived"},
@@ -128,7 +144,7 @@ func c19Serve(sc c19Scenario, a *app.App, id string, inputs []string, dir string
 	env := app.NewEnv()
 	env.Yield = yield
 	res := &app.Res{App: a, Env: env}
-	cfg := engine.Config{SessionId: id, OutputSize: sc.Size, FlagCount: a.FlagCount, Root: a.Root}
+	cfg := engine.Config{SessionId: id, OutputSize: sc.Size, FlagCount: a.FlagCount, Root: a.Root, Language: sc.Lang}
 	var en *engine.DefaultEngine
 	var mem func() db.Db
 	if sc.Mode == "persisted-mem" {
